@@ -7,7 +7,7 @@
    leave their inputs alone and that pydicom writes/reads the result are
    runtime checks in harness/c20.py. *)
 From Coq Require Import String ZArith List Bool.
-From HD Require Import Base.Val C20_Model C20_Proofs C20_Proofs_Str.
+From HD Require Import Base.Val C20_Model C20_Proofs C20_Proofs_Str C20_Proofs_Obj.
 Import ListNotations.
 
 (* ------------------------------------------------------------------ *)
@@ -220,6 +220,157 @@ Proof. vm_compute. reflexivity. Qed.
 Print Assumptions C20_ex_pm_native.
 
 (* ------------------------------------------------------------------ *)
+(* 7. SOPClass.__init__ (base.py): the file meta information carries the
+      identifiers of the data set, the transfer syntax is little endian, every
+      long-string attribute it stores passes pydicom's write validator;
+      accepted iff all guards hold; ValueError / TypeError only *)
+Theorem C20_file_meta_carries : forall a o, sop_init a = Ok o ->
+  fm_instance o = ds_instance o /\ fm_class o = ds_class o /\
+  ds_instance o = a_instance a /\ ds_class o = a_class a /\ ts_le (fm_ts o) = true.
+Proof. exact file_meta_carries. Qed.
+Print Assumptions C20_file_meta_carries.
+
+Theorem C20_sop_init_builds : forall a o, sop_init a = Ok o ->
+  fm_instance o = a_instance a /\ ds_instance o = a_instance a /\
+  fm_class o = a_class a /\ ds_class o = a_class a /\
+  ds_study o = a_study a /\ ds_series o = a_series a /\
+  ts_le (fm_ts o) = true /\ (1 <= fm_ts o <= 5)%Z /\ (a_ts a = 0%Z -> fm_ts o = 1%Z) /\
+  a_series_number a = Some (ds_series_number o) /\ (1 <= ds_series_number o)%Z /\
+  a_instance_number a = Some (ds_instance_number o) /\ (1 <= ds_instance_number o)%Z /\
+  (forall v, In v (ds_lo o) -> forall s, v = Some s -> pydicom_valid LO s = true /\ hd_guard LO s = true) /\
+  (forall v, ds_sex o = Some v -> (1 <= v <= 3)%Z) /\
+  (forall v, ds_qualification o = Some v -> (1 <= v <= 3)%Z) /\
+  sop_accepts a = true.
+Proof. exact sop_init_ok. Qed.
+Print Assumptions C20_sop_init_builds.
+
+Theorem C20_sop_init_accepts_iff : forall a, (exists o, sop_init a = Ok o) <-> sop_accepts a = true.
+Proof. exact sop_init_accepts. Qed.
+Print Assumptions C20_sop_init_accepts_iff.
+
+Theorem C20_sop_init_error_kind : forall a k, sop_init a = Err k ->
+  sop_accepts a = false /\
+  (k = "ValueError"%string \/
+   (k = "TypeError"%string /\ (a_series_number a = None \/ a_instance_number a = None))).
+Proof. exact sop_init_err_kind. Qed.
+Print Assumptions C20_sop_init_error_kind.
+
+Theorem C20_sop_init_series_number_missing : forall a, a_series_number a = None ->
+  sop_init a = Err (if ts_known (a_ts a) && ts_le (a_ts a) && enum_ok 3 true (a_sex a)
+                    then "TypeError" else "ValueError")%string.
+Proof. exact sop_init_series_number_missing. Qed.
+Print Assumptions C20_sop_init_series_number_missing.
+
+(* END TO END, one call that builds n objects and draws their identifiers itself
+   (distinct draws below 10^35): n objects are built; each identifier is a valid
+   UID, no two objects share one, and each object's file meta information
+   carries the identifier and class of its data set *)
+Theorem C20_objects_of_one_call_end_to_end : forall a n draws, NoDup draws ->
+  (forall d, In d draws -> (0 <= d < 10 ^ 35)%Z) ->
+  (0 <= n <= Z.of_nat (length draws))%Z -> sop_accepts a = true ->
+  exists ids objs, alloc_ids n None draws = Ok ids /\ build_levels a ids = Ok objs /\
+    Z.of_nat (length objs) = n /\
+    map fm_instance objs = map ds_instance objs /\
+    NoDup (map fm_instance objs) /\
+    (forall o, In o objs -> uid_valid (fm_instance o) = true /\ fm_instance o = ds_instance o /\
+                            fm_class o = ds_class o /\ ts_le (fm_ts o) = true).
+Proof. exact levels_end_to_end. Qed.
+Print Assumptions C20_objects_of_one_call_end_to_end.
+
+Theorem C20_build_levels_spec : forall a ids objs, build_levels a ids = Ok objs ->
+  map fm_instance objs = ids /\ map ds_instance objs = ids /\
+  (forall o, In o objs -> fm_class o = a_class a /\ ds_class o = a_class a /\ ts_le (fm_ts o) = true).
+Proof. exact build_levels_spec. Qed.
+Print Assumptions C20_build_levels_spec.
+
+(* ------------------------------------------------------------------ *)
+(* 8. the segment-plane kernel of seg/sop.py (_get_segment_pixel_array) and the
+      path of the caller's pixel array to it (_check_and_cast_pixel_array, plane
+      and segment indexing): no in-place numpy operation is applied to (a view
+      of) the caller's array, for every dtype / rank / segmentation type /
+      max_fractional_value configuration; the kernel before the fix (D24) wrote
+      into it exactly in the stated configurations; value ranges *)
+Theorem C20_no_write_through_view : forall c, snd (run_ops View (plane_ops c)) = false.
+Proof. exact no_write_through_view. Qed.
+Print Assumptions C20_no_write_through_view.
+
+Theorem C20_ctor_chain_no_write : forall c1 c2, snd (run_ops View (ctor_chain c1 c2)) = false.
+Proof. exact ctor_chain_no_write. Qed.
+Print Assumptions C20_ctor_chain_no_write.
+
+Theorem C20_writes_iff_inplace_before_copy : forall ops, snd (run_ops View ops) = true <->
+  exists pre post, ops = (pre ++ OInplace :: post)%list /\ ~ In OCopy pre.
+Proof. exact run_ops_writes_iff. Qed.
+Print Assumptions C20_writes_iff_inplace_before_copy.
+
+Theorem C20_inplace_scaling_refuted : forall c, snd (run_ops View (plane_ops_old c)) = true <->
+  p_float c = false /\ p_fractional c = true /\ p_mfv1 c = false /\
+  p_dtype_eq c = true /\ (p_ndim3 c = true \/ p_single1 c = true).
+Proof. exact plane_ops_old_writes_iff. Qed.
+Print Assumptions C20_inplace_scaling_refuted.
+
+Theorem C20_plane_result_view_iff : forall c, fst (run_ops View (plane_ops c)) = View <->
+  p_float c = false /\ p_dtype_eq c = true /\ (p_ndim3 c = true \/ p_single1 c = true) /\
+  (p_fractional c = false \/ p_mfv1 c = true).
+Proof. exact plane_result_view_iff. Qed.
+Print Assumptions C20_plane_result_view_iff.
+
+Theorem C20_plane_value_range : forall c seg mfv px, (1 <= mfv <= 255)%Z -> (p_mfv1 c = true -> mfv = 1%Z) ->
+  (p_float c = true -> forall v, In v px -> (0 <= v <= 4)%Z) ->
+  (p_float c = false -> forall v, In v px -> (0 <= v <= 1)%Z \/ (p_ndim3 c = false /\ p_single1 c = false)) ->
+  (0 <= plane_value c seg mfv px <= mfv)%Z.
+Proof. exact plane_value_range. Qed.
+Print Assumptions C20_plane_value_range.
+
+(* ------------------------------------------------------------------ *)
+(* 9. converters END TO END for a whole generated table, and constructor bodies *)
+Theorem C20_converter_table_end_to_end : forall tb, all_ok tb = true ->
+  forall c m, In (c, m) tb ->
+  exists sm, tlookup (summaries tb) (cname c) = Some sm /\
+  (smode sm <> MInPlace ->
+     forall e h r e' h', all_O h -> exec (tlookup (summaries tb)) true (cbody c) e h r e' h' ->
+     (forall a o, get h a = Some o -> get h' a = Some o) /\
+     (r = true -> forall o, get h' (e' (cret c)) = Some o -> (length h <= e' (cret c))%nat)) /\
+  (smode sm = MStd \/ smode sm = MInPlace ->
+     forall e h e' h', exec (tlookup (summaries tb)) false (cbody c) e h true e' h' -> e' (cret c) = e 0%nat).
+Proof. exact table_sound. Qed.
+Print Assumptions C20_converter_table_end_to_end.
+
+(* __init__ bodies (variable 0 = the object being built, every other variable a
+   parameter of unknown ownership): an accepted body never changes a
+   caller-owned object, also when an exception escapes *)
+Theorem C20_ctor_body_sound : forall ms s, ok_ctor ms s = true ->
+  forall e h r e' h', closedF h (e 0%nat) -> exec ms true s e h r e' h' -> O_preserved h h'.
+Proof. exact ctor_body_sound. Qed.
+Print Assumptions C20_ctor_body_sound.
+
+Example C20_ex_sop_init :
+  let a := {| a_ts := 0; a_study := [49]; a_series := [50]; a_instance := [51]; a_class := [52];
+              a_series_number := Some 1; a_instance_number := Some 7; a_sex := Some 0;
+              a_series_desc := None; a_manufacturer := Some [72; 68]; a_model := None; a_serial := None;
+              a_software := None; a_institution := None; a_department := Some [72; 92; 73];
+              a_qualification := Some 2 |}%Z in
+  (exists o, sop_init a = Ok o /\ fm_instance o = [51]%Z /\ fm_ts o = 1%Z /\
+             ds_lo o = [None; Some [72; 68]%Z; None; None; None; None; None] /\ ds_sex o = None) /\
+  sop_init (with_instance a [57]%Z) <> sop_init a /\
+  run_sop_init {| a_ts := 3; a_study := []; a_series := []; a_instance := []; a_class := [];
+                  a_series_number := None; a_instance_number := None; a_sex := None; a_series_desc := None;
+                  a_manufacturer := None; a_model := None; a_serial := None; a_software := None;
+                  a_institution := None; a_department := None; a_qualification := None |} = VErr "ValueError" /\
+  (exists objs, build_levels a [[53]; [54]]%Z = Ok objs /\ map fm_instance objs = [[53]; [54]]%Z).
+Proof. vm_compute. repeat split; try (eexists; repeat split); discriminate. Qed.
+Print Assumptions C20_ex_sop_init.
+
+Example C20_ex_seg_plane :
+  run_seg_plane false true false true true 2 255 [[0; 1]; [1; 0]]%Z = VL [VB false; vz_list [255; 0]%Z] /\
+  run_seg_plane true false false false true 1 255 [[2]; [1]; [4]]%Z = VL [VB false; vz_list [128; 64; 255]%Z] /\
+  run_seg_plane false false false true false 3 1 [[3]; [1]; [0]]%Z = VL [VB false; vz_list [1; 0; 0]%Z] /\
+  snd (run_ops View (plane_ops_old {| p_float := false; p_ndim3 := true; p_single1 := false; p_dtype_eq := true;
+                                       p_fractional := true; p_mfv1 := false |})) = true.
+Proof. vm_compute. repeat split. Qed.
+Print Assumptions C20_ex_seg_plane.
+
+(* ------------------------------------------------------------------ *)
 (* non-vacuity *)
 Close Scope Z_scope.
 Open Scope nat_scope.
@@ -310,3 +461,13 @@ Example C20_ex_uid : uid_valid (uid_of prefix_uuid (2 ^ 128 - 1)) = true /\
                      uid_valid [50; 46; 48; 53]%Z = false.
 Proof. vm_compute. repeat split. Qed.
 Print Assumptions C20_ex_uid.
+
+(* constructor bodies: storing parameters into the new object is accepted,
+   writing into a parameter - directly or through a path - is not *)
+Example C20_ex_ctor_body :
+  ok_ctor (fun _ => None) (seqs [Check; SetAttr 0 [1]; New 3 [2]; SetAttr 3 [1]; SetAttr 0 [3]]) = true /\
+  ok_ctor (fun _ => None) (seqs [SetAttr 0 [1]; SetAttr 1 []]) = false /\
+  ok_ctor (fun _ => None) (seqs [PathInto 2 1; SetAttr 2 []]) = false.
+Proof. vm_compute. repeat split. Qed.
+Print Assumptions C20_ex_ctor_body.
+
